@@ -119,6 +119,22 @@ pub fn alphabet_c12_expiry() -> Vec<Ev> {
     v
 }
 
+/// raw position reports on and next to the polar zone latitudes: even YZ 0 in zone 45 is exactly -90 deg (270 before the
+/// wrap), odd YZ 32768 in zone 44 likewise; even YZ 0 in zone 15 / odd YZ 98304 in zone 14 are exactly +90 deg
+pub fn alphabet_c13_poles(south: bool) -> Vec<Ev> {
+    let xz = 10_923; // 30 deg east at NL = 1
+    let (evens, odds): (Vec<u32>, Vec<u32>) = if south { (vec![200, 0, 1], vec![33_100, 33_050, 32_768]) } else { (vec![130_900, 0, 131_071], vec![98_200, 98_250, 98_304]) };
+    let mut v = vec![];
+    for yz in evens {
+        v.push(fr(&format!("a1.even.yz{yz}"), enc::es_frame(17, 5, A1, enc::me_pos(11, 0, 0, enc::ac12_q(9000), 0, false, yz, xz))));
+    }
+    for yz in odds {
+        v.push(fr(&format!("a1.odd.yz{yz}"), enc::es_frame(17, 5, A1, enc::me_pos(11, 0, 0, enc::ac12_q(9100), 0, true, yz, xz))));
+    }
+    v.push(fr("a2.even.yz0", enc::es_frame(17, 5, A2, enc::me_pos(11, 0, 0, enc::ac12_q(5000), 0, false, 0, xz))));
+    v
+}
+
 pub fn alphabet_c13(rx: (f64, f64), range: f64, tier: Tier) -> Vec<Ev> {
     let mut v = vec![];
     // flight F1: points 2 km apart starting 20 km from the receiver
